@@ -75,6 +75,28 @@ def sources_problems(specs, items, order):
     return out
 
 
+def shared_list_problem(make_a, make_b, items):
+    """The SAME pipeline list object handed to two operators (built one after the other): the second one behaves as with a
+    list of its own, and the caller's list is left as it was.  make_x(list_of_operators) -> operator."""
+    fresh = lambda: [rs.ops.map(lambda x: x), rs.data.to_list()]
+    shared = fresh()
+    before = list(shared)
+    op_a = make_a(shared)
+    op_b = make_b(shared)
+    ref_b = make_b(fresh())
+    res = []
+    for op in (op_a, op_b, ref_b):
+        sink = Sink()
+        sink.subscribe_to(rx.from_(list(items)).pipe(rs.state.with_memory_store([op])))
+        res.append(sink)
+    if len(shared) != len(before) or any(x is not y for x, y in zip(shared, before)):
+        return {'problem': 'the list passed as pipeline was modified', 'length_before': len(before), 'length_after': len(shared)}
+    if res[1].error is not None or repr(res[1].items) != repr(res[2].items) or res[1].completed != res[2].completed:
+        return {'problem': 'the second operator given the same list behaves differently', 'with_shared_list': res[1].items,
+                'with_own_list': res[2].items, 'error': repr(res[1].error)}
+    return None
+
+
 def run_twice(spec, items, mux=True):
     """ONE observable (one pipeline object, one store) subscribed twice in a row: (first sink, second sink)."""
     ctx = opspecs.Ctx()
